@@ -1,9 +1,28 @@
 (* EngineSafetyLitLen.v -- safety of the large-table builder genForLitLen of RModel/Engine.v
    (encodeSingles, encodePairs, encodeTriples, encodeLongCodes): no EPanic, no EFuel, and the
-   produced tables satisfy the entry invariants lit_short_ok / lit_long_ok, given that the code
-   list is sorted (litlen_sorted) and the long-code groups fit (long_groups_fit). *)
+   produced tables satisfy the entry invariants, given that the code list is sorted
+   (litlen_sorted) and the long-code groups fit (long_groups_fit = encodeLongCodes' loop does not
+   report an index out of range; model after fix 93d504a: explicit check 1264 <? lcl + grp).
+
+   Main results (both closed under the global context):
+     genForLitLen_spec    e = ENone, lit_short_ok / lit_long_ok of the produced tables, clc frames
+     genForLitLen_sym_ok  lit_short_sym_ok (EngineSafetyDecode.v) of the produced short table
+   Both are instances of genForLitLen_gen (Section Gen), which is generic in the entry predicates
+   P (short table) and Q (long table): P must hold of 0, of the single/pair/triple entries
+   (sym <= 512; sym1 < 256, sym2 <= 512; sym1, sym2 < 256, sym3 <= 511) and of the pointer entries
+   (13 <= maxLen <= 21, lcl + 2^(maxLen-12) <= 1264); Q of 0 and of the long entries.
+   Reusable field lemmas: short_entry_sym / short_entry_count (symbol field and symbol count of a
+   plain entry), pointer_flag / pointer_len / pointer_sym.
+
+   Kernel pitfall met here: never let Qed compare `encodePairs ..` (or any constant whose body is
+   a fuel Fixpoint applied to small_fuel) with its unfolded form: the kernel reduces the fixpoint
+   on the 1024 fuel and does not come back.  Hence encodePairs_fn / encodeTriples_fn /
+   genForLitLen_fn (equations between functions, proved by reflexivity) and the fuel parameter of
+   elc_fold.  `inversion` on an equation whose side contains forN can also hang: use
+   pair_equal_spec. *)
 From Verif Require Import Engine EngineTables.
 From Verif Require Import Base EngineSafetyBase EngineSafetyBits EngineSafetyInv.
+From Verif Require Import EngineSafetyDecode.   (* only for the definition lit_short_sym_ok *)
 From Coq Require Import List NArith ZArith Bool Lia ZifyBool ZifyNat ZifyN.
 Import ListNotations.
 Open Scope N_scope.
@@ -32,6 +51,9 @@ Proof.
   intros a m n Ha Hn. apply N.lt_le_trans with (2 ^ m); [exact Ha|].
   apply N.pow_le_mono_r; [lia|exact Hn].
 Qed.
+
+Lemma small_fuel_val : N.of_nat small_fuel = 1024.
+Proof. vm_compute. reflexivity. Qed.
 
 Lemma indexToSym_le : forall x, x < 514 -> indexToSym x <= 512.
 Proof. intros x H. unfold indexToSym. destruct (x =? 513) eqn:E; lia. Qed.
@@ -134,6 +156,30 @@ Lemma huff_lt : forall i, aget (litAndDistHuff d) i < 4294967296.
 Proof. destruct HS as (_ & _ & _ & _ & H & _). exact H. Qed.
 
 End Sorted.
+
+(* unfolding equations: stated on the functions so that the kernel never has to compare
+   `encodePairs ..` with `pairs_loop small_fuel ..` by reducing the fixpoint on its 1024 fuel *)
+Lemma encodePairs_fn : encodePairs = fun short d length minLen =>
+  pairs_loop small_fuel short d length (aget (litCount d) minLen)
+             (aget (litCount d) (sub32 length minLen + 1)).
+Proof. reflexivity. Qed.
+
+Lemma encodePairs_unfold : forall t d ll minLen,
+  encodePairs t d ll minLen =
+  pairs_loop small_fuel t d ll (aget (litCount d) minLen)
+             (aget (litCount d) (sub32 ll minLen + 1)).
+Proof. intros. rewrite encodePairs_fn. reflexivity. Qed.
+
+Lemma encodeTriples_fn : encodeTriples = fun short d length minLen =>
+  triples_loop1 small_fuel short d length minLen (aget (litCount d) minLen)
+                (aget (litCount d) (sub32 length (2 * minLen) + 1)).
+Proof. reflexivity. Qed.
+
+Lemma encodeTriples_unfold : forall t d ll minLen,
+  encodeTriples t d ll minLen =
+  triples_loop1 small_fuel t d ll minLen (aget (litCount d) minLen)
+                (aget (litCount d) (sub32 ll (2 * minLen) + 1)).
+Proof. intros. rewrite encodeTriples_fn. reflexivity. Qed.
 
 (* ---------------------------------------------------------------- the builder, for generic entry
    predicates: P for the short table, Q for the long table *)
@@ -245,11 +291,11 @@ Lemma encodePairs_ok : forall t d ll minLen t' e,
   encodePairs t d ll minLen = (t', e) ->
   e = ENone /\ all_entries P t'.
 Proof.
-  intros t d ll minLen t' e HS Hm Hll Ht H. unfold encodePairs in H.
+  intros t d ll minLen t' e HS Hm Hll Ht H. rewrite encodePairs_unfold in H.
   rewrite sub32_le in H by lia.
   pose proof (lc_le_514 d HS minLen ltac:(lia)) as H1.
   apply (pairs_loop_ok _ _ _ _ minLen _ _ _ HS Hm Hll) in H; [exact H|lia|lia| |exact Ht].
-  unfold small_fuel. lia.
+  rewrite small_fuel_val. lia.
 Qed.
 
 (* ---------------------------------------------------------------- encodeTriples *)
@@ -351,7 +397,7 @@ Proof.
         as [t1 e1] eqn:EL2.
       pose proof (lc_le_514 d HS minLen ltac:(lia)) as Hml.
       apply (triples_loop2_ok _ _ _ _ minLen _ _ _ _ _ _ HS) in EL2;
-        [|lia|lia|lia|lia|lia|lia|unfold small_fuel; lia|exact Ht].
+        [|lia|lia|lia|lia|lia|lia|rewrite small_fuel_val; lia|exact Ht].
       destruct EL2 as [He1 Ht1]. subst e1.
       rewrite u16_small in H by lia.
       apply (IH _ _ _ minLen _ _ _ HS Hm Hll) in H; [exact H|lia|lia|lia|exact Ht1].
@@ -363,9 +409,570 @@ Lemma encodeTriples_ok : forall t d ll minLen t' e,
   encodeTriples t d ll minLen = (t', e) ->
   e = ENone /\ all_entries P t'.
 Proof.
-  intros t d ll minLen t' e HS Hm Hll Ht H. unfold encodeTriples in H.
+  intros t d ll minLen t' e HS Hm Hll Ht H. rewrite encodeTriples_unfold in H.
   rewrite sub32_le in H by lia.
   pose proof (lc_le_514 d HS minLen ltac:(lia)) as H1.
   apply (triples_loop1_ok _ _ _ _ minLen _ _ _ HS Hm Hll) in H; [exact H|lia|lia| |exact Ht].
-  unfold small_fuel. lia.
+  rewrite small_fuel_val. lia.
 Qed.
+
+(* ---------------------------------------------------------------- encodeLongCodes *)
+Definition elc_scan (d : dynHdr) (huff : arr) (firstBits : N) (j : N) (a : N * list N)
+  : N * list N :=
+  let '(ml, tl) := a in
+  let lj := aget (codeList d) (aget (litCount d) 13 + j) in
+  if N.land (hc_code (aget huff lj)) 4095 =? firstBits
+  then (hc_len (aget huff lj), lj :: tl) else a.
+
+Definition elc_fold (fuel : nat) (lcl grp : N) (a : arr * arr * bool) (sym1Index : N) : arr * arr * bool :=
+  let '(long, huff, pan) := a in
+  let sym1 := indexToSym sym1Index in
+  let sym1Len := hc_len (aget huff sym1Index) in
+  let sym1Code := hc_code (aget huff sym1Index) in
+  let longBits := N.shiftr sym1Code 12 in
+  let minInc := shl32 1 (sym1Len - 12) in
+  let entry := u16 (N.lor sym1 (N.shiftl sym1Len 10)) in
+  let '(long, pan) := long_fill fuel 1264 mask32 long lcl longBits grp minInc entry pan in
+  (long, aset huff sym1Index (hc_setcode (aget huff sym1Index) invalidCodeValue), pan).
+
+Definition elc_step (d : dynHdr) (n : N) (i : N) (st : arr * arr * arr * N * bool)
+  : arr * arr * arr * N * bool :=
+  let '(short, long, huff, lcl, pan) := st in
+  if pan then st
+  else if 516 <=? aget (litCount d) 13 + i then (short, long, huff, lcl, true)
+  else
+    let li := aget (codeList d) (aget (litCount d) 13 + i) in
+    if hc_code (aget huff li) =? invalidCodeValue then st
+    else
+      let maxLen0 := hc_len (aget huff li) in
+      let firstBits := N.land (hc_code (aget huff li)) 4095 in
+      let '(maxLen, tempRev) := forN (i + 1) n (elc_scan d huff firstBits) (maxLen0, [li]) in
+      let temp := frev tempRev in
+      let grp := shl32 1 (maxLen - 12) in
+      if 1264 <? lcl + grp then (short, long, huff, lcl, true)
+      else
+        let long := forN lcl (lcl + grp) (fun x t => aset t x 0) long in
+        let '(long, huff, pan) := fold_left (elc_fold small_fuel lcl grp) temp (long, huff, pan) in
+        let short := aset short firstBits
+                       (u32 (N.lor (N.lor lcl (N.shiftl maxLen 26)) largeFlagBit)) in
+        (short, long, huff, u32 (lcl + grp), pan).
+
+Lemma elc_loop_step_eq : forall short long d cll,
+  elc_loop short long d cll =
+  forN 0 (sub32 cll (aget (litCount d) 13)) (elc_step d (sub32 cll (aget (litCount d) 13)))
+       (short, long, litAndDistHuff d, 0, false).
+Proof. reflexivity. Qed.
+
+Lemma hc_setcode_lt : forall v c, hc_setcode v c < 4294967296.
+Proof.
+  intros v c. unfold hc_setcode. change 4294967296 with (2 ^ 32). apply lor_lt_pow2.
+  - pose proof (land_le_r v 4278190080) as H. change (2 ^ 32) with 4294967296. lia.
+  - pose proof (land_le_r c 16777215) as H. change (2 ^ 32) with 4294967296. lia.
+Qed.
+
+Lemma hc_setcode_len : forall v c, v < 4294967296 -> hc_len (hc_setcode v c) = hc_len v.
+Proof.
+  intros v c Hv. unfold hc_len, hc_setcode. apply N.bits_inj. intro n.
+  rewrite !N.shiftr_spec by lia. rewrite N.lor_spec, !N.land_spec.
+  change 16777215 with (N.ones 24). rewrite N.ones_spec_high by lia.
+  rewrite andb_false_r, orb_false_r.
+  change 4278190080 with (N.shiftl (N.ones 8) 24).
+  rewrite N.shiftl_spec_high by lia. replace (n + 24 - 24) with n by lia.
+  destruct (N.lt_ge_cases n 8) as [Hlt|Hge].
+  - rewrite N.ones_spec_low by exact Hlt. apply andb_true_r.
+  - rewrite N.ones_spec_high by exact Hge. rewrite andb_false_r.
+    symmetry. apply (testbit_small v 32); [exact Hv|lia].
+Qed.
+
+Definition huffinv (d : dynHdr) (huff : arr) : Prop :=
+  forall x, aget huff x < 4294967296 /\
+            hc_len (aget huff x) = hc_len (aget (litAndDistHuff d) x).
+
+Lemma huffinv_mark : forall d huff x,
+  huffinv d huff -> huffinv d (aset huff x (hc_setcode (aget huff x) invalidCodeValue)).
+Proof.
+  intros d huff x Hh y. rewrite aget_aset. destruct (y =? x) eqn:E.
+  - assert (y = x) by lia. subst y. destruct (Hh x) as [H1 H2].
+    split; [apply hc_setcode_lt|]. rewrite hc_setcode_len by exact H1. exact H2.
+  - apply Hh.
+Qed.
+
+Lemma long_fill_ok : forall fuel bound wrap base lim minInc entry long longBits pan long' pan',
+  base + lim <= bound -> Q entry -> all_entries Q long ->
+  long_fill fuel bound wrap long base longBits lim minInc entry pan = (long', pan') ->
+  pan' = pan /\ all_entries Q long'.
+Proof.
+  induction fuel as [|f IH];
+    intros bound wrap base lim minInc entry long longBits pan long' pan' Hb He Hl H.
+  - cbn [long_fill] in H. inversion H; subst. split; [reflexivity|exact Hl].
+  - cbn [long_fill] in H. destruct (longBits <? lim) eqn:E1.
+    2:{ inversion H; subst. split; [reflexivity|exact Hl]. }
+    destruct (bound <=? base + longBits) eqn:E2; [lia|].
+    apply IH in H; [exact H|exact Hb|exact He|].
+    apply all_entries_aset; [exact Hl|exact He].
+Qed.
+
+Lemma long_fill_pan : forall fuel bound wrap base lim minInc entry long longBits pan long' pan',
+  base + lim <= bound ->
+  long_fill fuel bound wrap long base longBits lim minInc entry pan = (long', pan') ->
+  pan' = pan.
+Proof.
+  induction fuel as [|f IH];
+    intros bound wrap base lim minInc entry long longBits pan long' pan' Hb H.
+  - cbn [long_fill] in H. inversion H; subst. reflexivity.
+  - cbn [long_fill] in H. destruct (longBits <? lim) eqn:E1.
+    2:{ inversion H; subst. reflexivity. }
+    destruct (bound <=? base + longBits) eqn:E2; [lia|].
+    apply IH in H; [exact H|exact Hb].
+Qed.
+
+Definition elem_ok (d : dynHdr) (x : N) : Prop :=
+  x < 514 /\ 13 <= hc_len (aget (litAndDistHuff d) x) <= 21.
+
+Lemma elc_fold_ok : forall fuel d lcl grp temp long huff pan long' huff' pan',
+  lcl + grp <= 1264 -> Forall (elem_ok d) temp -> huffinv d huff ->
+  fold_left (elc_fold fuel lcl grp) temp (long, huff, pan) = (long', huff', pan') ->
+  huffinv d huff' /\ pan' = pan /\ (all_entries Q long -> all_entries Q long').
+Proof.
+  intros fuel d lcl grp temp. induction temp as [|x r IH];
+    intros long huff pan long' huff' pan' Hg Hf Hh H.
+  - cbn [fold_left] in H. inversion H; subst. split; [exact Hh|]. split; [reflexivity|auto].
+  - cbn [fold_left] in H. inversion Hf as [|x0 r0 Hx Hr]; subst x0 r0.
+    unfold elc_fold at 2 in H.
+    match type of H with context [long_fill ?a ?b ?c ?dd ?e ?f ?g ?hh ?i ?j] =>
+      destruct (long_fill a b c dd e f g hh i j) as [long1 pan1] eqn:EL end.
+    apply IH in H; [|exact Hg|exact Hr|apply huffinv_mark; exact Hh].
+    destruct H as (H1 & H2 & H3).
+    pose proof (long_fill_pan _ _ _ _ _ _ _ _ _ _ _ _ Hg EL) as Hp.
+    split; [exact H1|]. split; [congruence|].
+    intro HQ. apply H3.
+    destruct Hx as [Hx1 Hx2]. destruct (Hh x) as [_ Hlen].
+    apply (long_fill_ok _ _ _ _ _ _ _ _ _ _ _ _ Hg) in EL; [exact (proj2 EL)| |exact HQ].
+    apply Q_entry; [apply indexToSym_le; exact Hx1|]. rewrite Hlen. exact Hx2.
+Qed.
+
+Lemma shl32_1 : forall k, k < 32 -> shl32 1 k = 2 ^ k.
+Proof.
+  intros k Hk. unfold shl32. destruct (32 <=? k) eqn:E; [lia|].
+  rewrite N.shiftl_1_l. apply u32_small. change 4294967296 with (2 ^ 32).
+  apply N.pow_lt_mono_r; lia.
+Qed.
+
+Lemma elc_scan_ok : forall d huff firstBits lo n ml0 li ml tl,
+  litlen_sorted d -> huffinv d huff ->
+  aget (litCount d) 13 + n <= aget (litCount d) 22 ->
+  13 <= ml0 <= 21 -> elem_ok d li ->
+  forN lo n (elc_scan d huff firstBits) (ml0, [li]) = (ml, tl) ->
+  13 <= ml <= 21 /\ Forall (elem_ok d) tl.
+Proof.
+  intros d huff firstBits lo n ml0 li ml tl HS Hh Hn Hml Hli H.
+  assert (G : (fun a : N * list N => 13 <= fst a <= 21 /\ Forall (elem_ok d) (snd a))
+                (forN lo n (elc_scan d huff firstBits) (ml0, [li]))).
+  { apply forN_inv.
+    - cbn [fst snd]. split; [exact Hml|]. constructor; [exact Hli|constructor].
+    - intros j [m l] Hj [Hm Hl]. cbn [fst snd] in Hm, Hl. unfold elc_scan.
+      destruct (N.land (hc_code (aget huff (aget (codeList d) (aget (litCount d) 13 + j)))) 4095
+                =? firstBits) eqn:E.
+      2:{ cbn [fst snd]. split; [exact Hm|exact Hl]. }
+      destruct (bucket_ex d HS 13 22 (aget (litCount d) 13 + j) ltac:(lia) ltac:(lia) ltac:(lia))
+        as (L & HL & Hb & Hc & Hlen).
+      destruct (Hh (aget (codeList d) (aget (litCount d) 13 + j))) as [_ Hlj].
+      cbn [fst snd]. split; [rewrite Hlj, Hlen; lia|].
+      constructor; [|exact Hl]. split; [exact Hc|]. rewrite Hlen. lia. }
+  rewrite H in G. exact G.
+Qed.
+
+Lemma Forall_frev : forall (A : Type) (R : A -> Prop) l, Forall R l -> Forall R (frev l).
+Proof.
+  intros A R l H. unfold frev. rewrite rev_append_rev, app_nil_r. apply Forall_rev. exact H.
+Qed.
+
+Lemma elc_step_ok : forall d n i short long huff lcl short' long' huff' lcl' pan',
+  litlen_sorted d -> aget (litCount d) 13 + n <= aget (litCount d) 22 -> i < n ->
+  huffinv d huff ->
+  elc_step d n i (short, long, huff, lcl, false) = (short', long', huff', lcl', pan') ->
+  huffinv d huff' /\
+  (pan' = false -> all_entries P short -> all_entries P short') /\
+  (pan' = false -> all_entries Q long -> all_entries Q long').
+Proof.
+  intros d n i short long huff lcl short' long' huff' lcl' pan' HS Hn Hi Hh H.
+  unfold elc_step in H.
+  pose proof (lc_le_514 d HS 22 ltac:(lia)) as H22.
+  destruct (516 <=? aget (litCount d) 13 + i) eqn:E1; [lia|].
+  destruct (bucket_ex d HS 13 22 (aget (litCount d) 13 + i) ltac:(lia) ltac:(lia) ltac:(lia))
+    as (L & HL & Hb & Hc & Hlen).
+  set (li := aget (codeList d) (aget (litCount d) 13 + i)) in *.
+  destruct (Hh li) as [_ Hlli].
+  destruct (hc_code (aget huff li) =? invalidCodeValue) eqn:E2.
+  { inversion H; subst. split; [exact Hh|]. split; auto. }
+  cbv zeta in H.
+  destruct (forN (i + 1) n (elc_scan d huff (N.land (hc_code (aget huff li)) 4095))
+                 (hc_len (aget huff li), [li])) as [maxLen tempRev] eqn:ES.
+  apply (elc_scan_ok d huff _ _ _ _ _ _ _ HS Hh Hn) in ES;
+    [|rewrite Hlli, Hlen; lia|split; [exact Hc|rewrite Hlen; lia]].
+  destruct ES as [Hml Htl].
+  rewrite shl32_1 in H by lia.
+  destruct (1264 <? lcl + 2 ^ (maxLen - 12)) eqn:E3.
+  { inversion H; subst. split; [exact Hh|]. split; intro Hc0; discriminate Hc0. }
+  match type of H with context [fold_left ?f ?l ?a] =>
+    destruct (fold_left f l a) as [[long2 huff2] pan2] eqn:EF end.
+  apply (elc_fold_ok _ d) in EF; [|lia|apply Forall_frev; exact Htl|exact Hh].
+  destruct EF as (F1 & F2 & F3).
+  inversion H; subst short' long' huff' lcl' pan'. clear H.
+  split; [exact F1|]. split.
+  - intros _ Hs. apply all_entries_aset; [exact Hs|]. apply P_pointer; [exact Hml|lia].
+  - intros _ Hl. apply F3. apply forN_inv; [exact Hl|].
+    intros j x _ Hx. apply all_entries_aset; [exact Hx|exact Q_zero].
+Qed.
+
+Lemma elc_sticky : forall d n k i short long huff lcl,
+  iterN k i (elc_step d n) (short, long, huff, lcl, true) = (short, long, huff, lcl, true).
+Proof.
+  intros d n. induction k as [|k IH]; intros i short long huff lcl.
+  - reflexivity.
+  - cbn [iterN]. change (elc_step d n i (short, long, huff, lcl, true))
+      with (short, long, huff, lcl, true). apply IH.
+Qed.
+
+Lemma elc_iter_ok : forall d n k i short long huff lcl short' long' huff' lcl',
+  litlen_sorted d -> aget (litCount d) 13 + n <= aget (litCount d) 22 ->
+  i + N.of_nat k <= n -> huffinv d huff ->
+  iterN k i (elc_step d n) (short, long, huff, lcl, false) = (short', long', huff', lcl', false) ->
+  (all_entries P short -> all_entries P short') /\
+  (all_entries Q long -> all_entries Q long').
+Proof.
+  intros d n. induction k as [|k IH];
+    intros i short long huff lcl short' long' huff' lcl' HS Hn Hk Hh H.
+  - cbn [iterN] in H. inversion H; subst. split; auto.
+  - cbn [iterN] in H.
+    destruct (elc_step d n i (short, long, huff, lcl, false)) as [[[[s1 l1] h1] c1] p1] eqn:E.
+    apply elc_step_ok in E; [|exact HS|exact Hn|lia|exact Hh].
+    destruct E as (E1 & E2 & E3).
+    destruct p1.
+    + rewrite elc_sticky in H. inversion H.
+    + apply IH in H; [|exact HS|exact Hn|lia|exact E1].
+      destruct H as [G1 G2]. split.
+      * intro Hs. apply G1. apply E2; [reflexivity|exact Hs].
+      * intro Hl. apply G2. apply E3; [reflexivity|exact Hl].
+Qed.
+
+Lemma huffinv_init : forall d, litlen_sorted d -> huffinv d (litAndDistHuff d).
+Proof. intros d HS x. split; [apply (huff_lt d HS)|reflexivity]. Qed.
+
+Lemma encodeLongCodes_ok : forall short long d sh lg huff pan,
+  litlen_sorted d -> long_groups_fit d ->
+  encodeLongCodes short long d (aget (litCount d) 22) = (sh, lg, huff, pan) ->
+  pan = false /\ (all_entries P short -> all_entries P sh) /\
+  (all_entries Q long -> all_entries Q lg).
+Proof.
+  intros short long d sh lg huff pan HS HF H.
+  rewrite encodeLongCodes_eq in H. specialize (HF short long).
+  destruct (elc_loop short long d (aget (litCount d) 22)) as [[[[s1 l1] h1] c1] p1] eqn:E.
+  inversion H; subst sh lg huff pan. clear H. subst p1.
+  split; [reflexivity|].
+  rewrite elc_loop_step_eq in E.
+  pose proof (lc_mono d HS 13 22 ltac:(lia) ltac:(lia)) as Hm.
+  rewrite sub32_le in E by exact Hm.
+  unfold forN in E.
+  apply elc_iter_ok in E; [exact E|exact HS|lia|lia|apply huffinv_init; exact HS].
+Qed.
+
+(* ---------------------------------------------------------------- genForLitLen *)
+Definition gfl_step (d : dynHdr) (multisym minLen : N) (ll : N) (st : arr * N * ierr)
+  : arr * N * ierr :=
+  let '(t, cs, err) := st in
+  match err with
+  | ENone =>
+    let t := forN 0 (N.min cs (4096 - cs)) (fun i t => aset t (cs + i) (aget t i)) t in
+    let cs := cs * 2 in
+    let '(t, pan) := encodeSingles t d ll in
+    if pan then (t, cs, EPanic)
+    else if (singleSymFlag <=? multisym) || (ll <? 2 * minLen) then (t, cs, ENone)
+    else
+      let '(t, e) := encodePairs t d ll minLen in
+      match e with
+      | ENone =>
+        if (doubleSymFlag <=? multisym) || (ll <? 3 * minLen) then (t, cs, ENone)
+        else let '(t, e) := encodeTriples t d ll minLen in (t, cs, e)
+      | _ => (t, cs, e)
+      end
+  | _ => st
+  end.
+
+Lemma gfl_step_ok : forall d multisym minLen ll t cs,
+  litlen_sorted d -> ll < 13 -> all_entries P t ->
+  exists t' cs', gfl_step d multisym minLen ll (t, cs, ENone) = (t', cs', ENone) /\
+                 all_entries P t'.
+Proof.
+  intros d multisym minLen ll t cs HS Hll Ht. unfold gfl_step. cbv beta iota zeta.
+  set (t0 := forN 0 (N.min cs (4096 - cs)) (fun i t => aset t (cs + i) (aget t i)) t).
+  assert (Ht0 : all_entries P t0).
+  { unfold t0. apply forN_inv; [exact Ht|]. intros j x _ Hx.
+    apply all_entries_aset; [exact Hx|apply Hx]. }
+  clearbody t0.
+  destruct (encodeSingles t0 d ll) as [t1 pan] eqn:ES.
+  apply encodeSingles_ok in ES; [|exact HS|lia|exact Ht0].
+  destruct ES as [Hpan Ht1]. subst pan.
+  destruct ((singleSymFlag <=? multisym) || (ll <? 2 * minLen)) eqn:Ec1.
+  { exists t1, (cs * 2). split; [reflexivity|exact Ht1]. }
+  destruct (encodePairs t1 d ll minLen) as [t2 e2] eqn:EP.
+  apply encodePairs_ok in EP; [|exact HS|lia|lia|exact Ht1].
+  destruct EP as [He2 Ht2]. subst e2.
+  destruct ((doubleSymFlag <=? multisym) || (ll <? 3 * minLen)) eqn:Ec2.
+  { exists t2, (cs * 2). split; [reflexivity|exact Ht2]. }
+  destruct (encodeTriples t2 d ll minLen) as [t3 e3] eqn:ET.
+  apply encodeTriples_ok in ET; [|exact HS|lia|lia|exact Ht2].
+  destruct ET as [He3 Ht3]. subst e3.
+  exists t3, (cs * 2). split; [reflexivity|exact Ht3].
+Qed.
+
+Lemma genForLitLen_fn : genForLitLen = fun short long d multisym =>
+  let codeListLen := aget (litCount d) 22 in
+  if codeListLen =? 0 then (aempty, long, d, ENone)
+  else
+    let lastLen0 := hc_len (aget (litAndDistHuff d) (aget (codeList d) 0)) in
+    let lastLen := if 12 <? lastLen0 then 13 else lastLen0 in
+    let copySize := if lastLen =? 0 then 0 else N.shiftl 1 (lastLen - 1) in
+    let short := forN 0 copySize (fun i t => aset t i 0) short in
+    let '(short, _, err) := forN lastLen 13 (gfl_step d multisym lastLen) (short, copySize, ENone) in
+    match err with
+    | ENone =>
+      let '(short, long, huff, pan) := encodeLongCodes short long d codeListLen in
+      (short, long, set_dyn_huff d huff, if pan then EPanic else ENone)
+    | _ => (short, long, d, err)
+    end.
+Proof. reflexivity. Qed.
+
+Lemma genForLitLen_gen : forall short long d multisym sh lg d' e,
+  genForLitLen short long d multisym = (sh, lg, d', e) ->
+  litlen_sorted d -> long_groups_fit d ->
+  all_entries P short ->
+  e = ENone /\ all_entries P sh /\ (all_entries Q long -> all_entries Q lg) /\
+  clcShort d' = clcShort d /\ clcLong d' = clcLong d.
+Proof.
+  intros short long d multisym sh lg d' e H HS HF Hsh.
+  rewrite genForLitLen_fn in H. cbv beta zeta in H.
+  destruct (aget (litCount d) 22 =? 0) eqn:E0.
+  { apply pair_equal_spec in H. destruct H as [H He].
+    apply pair_equal_spec in H. destruct H as [H Hd].
+    apply pair_equal_spec in H. destruct H as [Hs Hl]. subst sh lg d' e.
+    split; [reflexivity|]. split; [apply all_entries_empty; exact P_zero|].
+    split; [auto|]. split; reflexivity. }
+  set (minLen := if 12 <? hc_len (aget (litAndDistHuff d) (aget (codeList d) 0)) then 13
+                 else hc_len (aget (litAndDistHuff d) (aget (codeList d) 0))) in H.
+  set (copySize := if minLen =? 0 then 0 else N.shiftl 1 (minLen - 1)) in H.
+  set (short0 := forN 0 copySize (fun i t => aset t i 0) short) in H.
+  assert (Hs0 : all_entries P short0).
+  { unfold short0. apply forN_inv; [exact Hsh|]. intros j x _ Hx.
+    apply all_entries_aset; [exact Hx|exact P_zero]. }
+  clearbody short0. clearbody copySize.
+  assert (HL : (fun st : arr * N * ierr => snd st = ENone /\ all_entries P (fst (fst st)))
+                 (forN minLen 13 (gfl_step d multisym minLen) (short0, copySize, ENone))).
+  { apply forN_inv.
+    - cbn [fst snd]. split; [reflexivity|exact Hs0].
+    - intros ll [[t cs] err] Hll [Herr Ht]. cbn [fst snd] in Herr, Ht. subst err.
+      destruct (gfl_step_ok d multisym minLen ll t cs HS ltac:(lia) Ht) as (t' & cs' & Hst & Ht').
+      rewrite Hst. cbn [fst snd]. split; [reflexivity|exact Ht']. }
+  destruct (forN minLen 13 (gfl_step d multisym minLen) (short0, copySize, ENone))
+    as [[t1 cs1] err1] eqn:EL.
+  cbn [fst snd] in HL. destruct HL as [Herr Ht1]. subst err1.
+  destruct (encodeLongCodes t1 long d (aget (litCount d) 22)) as [[[s2 l2] h2] p2] eqn:EE.
+  apply encodeLongCodes_ok in EE; [|exact HS|exact HF].
+  destruct EE as (Hp & G1 & G2). subst p2.
+  apply pair_equal_spec in H. destruct H as [H He].
+  apply pair_equal_spec in H. destruct H as [H Hd].
+  apply pair_equal_spec in H. destruct H as [Hs Hl]. subst sh lg d' e.
+  split; [reflexivity|]. split; [apply G1; exact Ht1|]. split; [exact G2|].
+  split; reflexivity.
+Qed.
+
+End Gen.
+
+(* ---------------------------------------------------------------- the concrete entries *)
+Lemma sym_single_lt : forall s, s <= 512 -> s < 2 ^ 25.
+Proof. intros s H. change (2 ^ 25) with 33554432. lia. Qed.
+
+Lemma sym_pair_lt : forall s1 s2, s1 < 256 -> s2 <= 512 -> N.lor s1 (N.shiftl s2 8) < 2 ^ 24.
+Proof.
+  intros s1 s2 H1 H2. apply lor_lt_pow2.
+  - change (2 ^ 24) with 16777216. lia.
+  - apply (shiftl_lt _ 8 10 24); [|lia]. change (2 ^ 10) with 1024. lia.
+Qed.
+
+Lemma sym_triple_lt : forall s1 s2 s3, s1 < 256 -> s2 < 256 -> s3 <= 511 ->
+  N.lor (N.lor s1 (N.shiftl s2 8)) (N.shiftl s3 16) < 2 ^ 25.
+Proof.
+  intros s1 s2 s3 H1 H2 H3. apply lor_lt_pow2; [apply lor_lt_pow2|].
+  - change (2 ^ 25) with 33554432. lia.
+  - apply (shiftl_lt _ 8 8 25); [|lia]. change (2 ^ 8) with 256. lia.
+  - apply (shiftl_lt _ 16 9 25); [|lia]. change (2 ^ 9) with 512. lia.
+Qed.
+
+(* the fields of a plain short entry *)
+Lemma short_entry_sym : forall s c m, s < 2 ^ 25 ->
+  N.land (u32 (N.lor (N.lor s (N.shiftl c 28)) (N.shiftl m 26))) largeShortSymMask = s.
+Proof.
+  intros s c m Hs. change largeShortSymMask with (N.ones 25). apply N.bits_inj. intro n.
+  rewrite N.land_spec. destruct (N.lt_ge_cases n 25) as [Hlt|Hge].
+  - rewrite N.ones_spec_low by exact Hlt. rewrite andb_true_r.
+    rewrite u32_testbit by lia. rewrite !N.lor_spec.
+    rewrite !N.shiftl_spec_low by lia. rewrite !orb_false_r. reflexivity.
+  - rewrite N.ones_spec_high by exact Hge. rewrite andb_false_r.
+    symmetry. apply (testbit_small s 25); [exact Hs|exact Hge].
+Qed.
+
+Lemma short_entry_count : forall s c m, s < 2 ^ 25 -> m <= 3 ->
+  N.land (N.shiftr (u32 (N.lor (N.lor s (N.shiftl c 28)) (N.shiftl m 26))) 26) 3 = m.
+Proof.
+  intros s c m Hs Hm. change 3 with (N.ones 2) at 1. apply N.bits_inj. intro n.
+  rewrite N.land_spec, N.shiftr_spec by lia.
+  destruct (N.lt_ge_cases n 2) as [Hlt|Hge].
+  - rewrite N.ones_spec_low by exact Hlt. rewrite andb_true_r.
+    rewrite u32_testbit by lia. rewrite !N.lor_spec.
+    rewrite (testbit_small s 25 (n + 26)) by (auto; lia).
+    rewrite N.shiftl_spec_low by lia. rewrite N.shiftl_spec_high by lia.
+    cbn [orb]. f_equal. lia.
+  - rewrite N.ones_spec_high by exact Hge. rewrite andb_false_r.
+    symmetry. apply (testbit_small m 2); [change (2 ^ 2) with 4; lia|exact Hge].
+Qed.
+
+Lemma sym_entry_ok : forall s c m, s < 2 ^ 25 -> m <= 3 -> s < 2 ^ (8 * m + 8) ->
+  lit_short_sym_ok (u32 (N.lor (N.lor s (N.shiftl c 28)) (N.shiftl m 26))).
+Proof.
+  intros s c m Hs Hm Hlt. apply lit_short_sym_ok_of_lt. intros _ _.
+  rewrite short_entry_sym by exact Hs. rewrite short_entry_count by assumption. exact Hlt.
+Qed.
+
+(* the pointer entry *)
+Lemma pointer_flag : forall lcl maxLen,
+  N.land (u32 (N.lor (N.lor lcl (N.shiftl maxLen 26)) largeFlagBit)) largeFlagBit <> 0.
+Proof.
+  intros lcl maxLen Hc. change largeFlagBit with (2 ^ 25) in Hc at 2.
+  apply land_pow2_testbit in Hc. rewrite u32_testbit in Hc by lia.
+  rewrite (lor_testbit_r _ largeFlagBit 25) in Hc; [discriminate|].
+  change largeFlagBit with (2 ^ 25). apply N.pow2_bits_true.
+Qed.
+
+Lemma pointer_len : forall lcl maxLen, lcl < 2 ^ 25 -> maxLen < 32 ->
+  N.shiftr (u32 (N.lor (N.lor lcl (N.shiftl maxLen 26)) largeFlagBit)) 26 = maxLen.
+Proof.
+  intros lcl maxLen Hl Hm. apply N.bits_inj. intro n. rewrite N.shiftr_spec by lia.
+  destruct (N.lt_ge_cases n 6) as [Hlt|Hge].
+  - rewrite u32_testbit by lia. rewrite !N.lor_spec.
+    rewrite (testbit_small lcl 25 (n + 26)) by (auto; lia).
+    rewrite N.shiftl_spec_high by lia.
+    change largeFlagBit with (2 ^ 25). rewrite N.pow2_bits_false by lia.
+    cbn [orb]. rewrite orb_false_r. f_equal. lia.
+  - rewrite (testbit_small _ 32 (n + 26)); [|apply u32_lt|lia].
+    symmetry. apply (testbit_small maxLen 5); [change (2 ^ 5) with 32; exact Hm|lia].
+Qed.
+
+Lemma pointer_sym : forall lcl maxLen, lcl < 2 ^ 25 ->
+  N.land (u32 (N.lor (N.lor lcl (N.shiftl maxLen 26)) largeFlagBit)) largeShortSymMask = lcl.
+Proof.
+  intros lcl maxLen Hl. change largeShortSymMask with (N.ones 25). apply N.bits_inj. intro n.
+  rewrite N.land_spec. destruct (N.lt_ge_cases n 25) as [Hlt|Hge].
+  - rewrite N.ones_spec_low by exact Hlt. rewrite andb_true_r.
+    rewrite u32_testbit by lia. rewrite !N.lor_spec.
+    rewrite N.shiftl_spec_low by lia.
+    change largeFlagBit with (2 ^ 25). rewrite N.pow2_bits_false by lia.
+    rewrite !orb_false_r. reflexivity.
+  - rewrite N.ones_spec_high by exact Hge. rewrite andb_false_r.
+    symmetry. apply (testbit_small lcl 25); [exact Hl|exact Hge].
+Qed.
+
+Lemma pow2_ge_1 : forall k, 1 <= 2 ^ k.
+Proof. intros k. pose proof (N.pow_nonzero 2 k ltac:(lia)). lia. Qed.
+
+Lemma pointer_entry_ok : forall lcl maxLen,
+  13 <= maxLen <= 21 -> lcl + 2 ^ (maxLen - 12) <= 1264 ->
+  lit_short_ok (u32 (N.lor (N.lor lcl (N.shiftl maxLen 26)) largeFlagBit)).
+Proof.
+  intros lcl maxLen Hm Hfit.
+  pose proof (pow2_ge_1 (maxLen - 12)) as Hp.
+  assert (Hl : lcl < 2 ^ 25) by (change (2 ^ 25) with 33554432; lia).
+  unfold lit_short_ok. split; [apply u32_lt|]. split.
+  - intros Hc. exfalso. exact (pointer_flag lcl maxLen Hc).
+  - intros _. rewrite pointer_len by (auto; lia). rewrite pointer_sym by exact Hl.
+    split; [lia|exact Hfit].
+Qed.
+
+Lemma long_entry_ok : forall sym len, sym <= 512 -> 13 <= len <= 21 ->
+  lit_long_ok (u16 (N.lor sym (N.shiftl len 10))).
+Proof.
+  intros sym len Hs Hlen. unfold lit_long_ok.
+  assert (Hs10 : sym < 2 ^ 10) by (change (2 ^ 10) with 1024; lia).
+  pose proof (shiftr_lor_shiftl sym len 10 Hs10) as H.
+  rewrite N.shiftr_div_pow2 in H. change (2 ^ 10) with 1024 in H.
+  set (x := N.lor sym (N.shiftl len 10)) in *.
+  pose proof (land_le_l x mask16) as Hu. fold (u16 x) in Hu.
+  pose proof (N.div_mod' x 1024) as Hd.
+  pose proof (N.mod_lt x 1024 ltac:(lia)) as Hmd.
+  rewrite H in Hd. lia.
+Qed.
+
+(* ---------------------------------------------------------------- the two instances *)
+Theorem genForLitLen_spec : forall short long d multisym sh lg d' e,
+  genForLitLen short long d multisym = (sh, lg, d', e) ->
+  litlen_sorted d -> long_groups_fit d ->
+  all_entries lit_short_ok short -> all_entries lit_long_ok long ->
+  e = ENone /\ all_entries lit_short_ok sh /\ all_entries lit_long_ok lg /\
+  clcShort d' = clcShort d /\ clcLong d' = clcLong d.
+Proof.
+  intros short long d multisym sh lg d' e H HS HF Hsh Hlg.
+  assert (A1 : forall s c, s <= 512 ->
+            lit_short_ok (u32 (N.lor (N.lor s (N.shiftl c 28)) (N.shiftl 1 26)))).
+  { intros s c Hs. apply short_entry_ok; [apply sym_single_lt; exact Hs|left; reflexivity]. }
+  assert (A2 : forall s1 s2 c, s1 < 256 -> s2 <= 512 ->
+            lit_short_ok (u32 (N.lor (N.lor (N.lor s1 (N.shiftl s2 8)) (N.shiftl c 28))
+                                     (N.shiftl 2 26)))).
+  { intros s1 s2 c H1 H2. apply short_entry_ok; [|right; reflexivity].
+    apply lt_pow2_mono with 24; [apply sym_pair_lt; assumption|lia]. }
+  assert (A3 : forall s1 s2 s3 c, s1 < 256 -> s2 < 256 -> s3 <= 511 ->
+            lit_short_ok (u32 (N.lor (N.lor (N.lor (N.lor s1 (N.shiftl s2 8)) (N.shiftl s3 16))
+                                            (N.shiftl c 28)) (N.shiftl 3 26)))).
+  { intros s1 s2 s3 c H1 H2 H3. apply short_entry_ok; [|left; reflexivity].
+    apply sym_triple_lt; assumption. }
+  destruct (genForLitLen_gen lit_short_ok lit_long_ok lit_short_ok_0 A1 A2 A3 pointer_entry_ok
+              lit_long_ok_0 long_entry_ok short long d multisym sh lg d' e H HS HF Hsh)
+    as (G1 & G2 & G3 & G4 & G5).
+  split; [exact G1|]. split; [exact G2|]. split; [exact (G3 Hlg)|]. split; [exact G4|exact G5].
+Qed.
+
+Print Assumptions genForLitLen_spec.
+
+Theorem genForLitLen_sym_ok : forall short long d multisym sh lg d' e,
+  genForLitLen short long d multisym = (sh, lg, d', e) ->
+  litlen_sorted d -> long_groups_fit d ->
+  all_entries lit_short_sym_ok short ->
+  all_entries lit_short_sym_ok sh.
+Proof.
+  intros short long d multisym sh lg d' e H HS HF Hsh.
+  assert (A0 : lit_short_sym_ok 0).
+  { intros _ Hc. exfalso. apply Hc. reflexivity. }
+  assert (A1 : forall s c, s <= 512 ->
+            lit_short_sym_ok (u32 (N.lor (N.lor s (N.shiftl c 28)) (N.shiftl 1 26)))).
+  { intros s c Hs. apply sym_entry_ok; [apply sym_single_lt; exact Hs|lia|].
+    change (2 ^ (8 * 1 + 8)) with 65536. lia. }
+  assert (A2 : forall s1 s2 c, s1 < 256 -> s2 <= 512 ->
+            lit_short_sym_ok (u32 (N.lor (N.lor (N.lor s1 (N.shiftl s2 8)) (N.shiftl c 28))
+                                         (N.shiftl 2 26)))).
+  { intros s1 s2 c H1 H2. apply sym_entry_ok; [|lia|].
+    - apply lt_pow2_mono with 24; [apply sym_pair_lt; assumption|lia].
+    - change (8 * 2 + 8) with 24. apply sym_pair_lt; assumption. }
+  assert (A3 : forall s1 s2 s3 c, s1 < 256 -> s2 < 256 -> s3 <= 511 ->
+            lit_short_sym_ok (u32 (N.lor (N.lor (N.lor (N.lor s1 (N.shiftl s2 8)) (N.shiftl s3 16))
+                                                (N.shiftl c 28)) (N.shiftl 3 26)))).
+  { intros s1 s2 s3 c H1 H2 H3. apply sym_entry_ok; [|lia|].
+    - apply sym_triple_lt; assumption.
+    - apply lt_pow2_mono with 25; [apply sym_triple_lt; assumption|lia]. }
+  assert (A4 : forall lcl maxLen, 13 <= maxLen <= 21 -> lcl + 2 ^ (maxLen - 12) <= 1264 ->
+            lit_short_sym_ok (u32 (N.lor (N.lor lcl (N.shiftl maxLen 26)) largeFlagBit))).
+  { intros lcl maxLen _ _ Hc. exfalso. exact (pointer_flag lcl maxLen Hc). }
+  destruct (genForLitLen_gen lit_short_sym_ok (fun _ => True) A0 A1 A2 A3 A4 I
+              (fun _ _ _ _ => I) short long d multisym sh lg d' e H HS HF Hsh)
+    as (G1 & G2 & G3 & G4 & G5).
+  exact G2.
+Qed.
+
+Print Assumptions genForLitLen_sym_ok.
